@@ -32,6 +32,10 @@ type C11Case struct {
 	// Carriers (parallel to Groups): 0 the message stands in the block itself; 1 inside a {let} content
 	// block that is printed; 2 inside a {param} content block of a call that prints it; 3 both
 	Carriers []int `json:"carriers,omitempty"`
+	// Region: 0 the catalogue is asked for under its own name; 1 it is stored as <locale>-<REGION>.po next
+	// to a decoy <locale>.po with other translations, and asked for as <locale>_<REGION> (the closest
+	// catalogue wins); 2 only <locale>.po exists and <locale>_<REGION> falls back to it
+	Region int `json:"region,omitempty"`
 	Catalogue string      `json:"catalogue"`
 	Locale    string      `json:"locale"`
 }
@@ -84,7 +88,7 @@ func partsOf(lets []ref.Cmd, body []ref.Cmd, names map[string]string) ([]c11Part
 		out = append(out, c11Part{text: s})
 	}
 	valueOf := func(c ref.Cmd) (string, error) {
-		p := &ref.Program{Files: []ref.File{{Name: "v.soy", Namespace: "v", Templates: []ref.Template{{Name: "t", Body: append(append([]ref.Cmd{}, lets...), c, lets2uses(lets))}}}}}
+		p := &ref.Program{Globals: gen.MsgGlobals, Files: []ref.File{{Name: "v.soy", Namespace: "v", Templates: []ref.Template{{Name: "t", Body: append(append([]ref.Cmd{}, lets...), c, lets2uses(lets))}}}}}
 		r := ref.Render(p, "v.t", nil, nil, false)
 		if r.Status != ref.OK {
 			return "", fmt.Errorf("placeholder does not render: %s", r.Msg)
@@ -208,7 +212,7 @@ func checkC11(c C11Case) Verdict {
 		}
 		body = append(body, ref.Cmd{K: "if", Branches: []ref.Branch{{Cond: &ref.Expr{Op: "bool", B: true}, Body: gb}}}, txt(" / "))
 	}
-	prog := &ref.Program{Files: []ref.File{{Name: "m.soy", Namespace: "m", Templates: []ref.Template{{Name: "t", Body: body},
+	prog := &ref.Program{Globals: gen.MsgGlobals, Files: []ref.File{{Name: "m.soy", Namespace: "m", Templates: []ref.Template{{Name: "t", Body: body},
 		{Name: "echo", Params: []ref.ParamDecl{{Name: "v"}}, Body: []ref.Cmd{{K: "print", Expr: varE("v"), Directives: raw}}}}}}}
 	names, srcs := gen.Sources(prog)
 	src := showSources(names, srcs)
@@ -247,7 +251,7 @@ func checkC11(c C11Case) Verdict {
 			distinctPh = len(nm)
 		}
 		// the source rendering of this group (fallback)
-		gp := &ref.Program{Files: []ref.File{{Name: "g.soy", Namespace: "g", Templates: []ref.Template{{Name: "t", Body: g}}}}}
+		gp := &ref.Program{Globals: gen.MsgGlobals, Files: []ref.File{{Name: "g.soy", Namespace: "g", Templates: []ref.Template{{Name: "t", Body: g}}}}}
 		gsrc := ref.Render(gp, "g.t", nil, nil, false).Out
 		var e entry
 		if msg.Body[0].K == "plural" {
@@ -351,17 +355,40 @@ func checkC11(c C11Case) Verdict {
 	}
 	var pobuf bytes.Buffer
 	file.WriteTo(&pobuf)
-	os.WriteFile(filepath.Join(dir, c.Locale+".po"), pobuf.Bytes(), 0o644)
+	region := map[string]string{"en": "GB", "ja": "JP", "cs": "CZ", "fr": "FR"}[c.Locale]
+	ask := c.Locale
+	switch c.Region {
+	case 1:
+		os.WriteFile(filepath.Join(dir, c.Locale+"-"+region+".po"), pobuf.Bytes(), 0o644)
+		decoy := po.File{Header: file.Header}
+		for _, m := range file.Messages {
+			d := m
+			d.Str = make([]string, len(m.Str))
+			for i := range d.Str {
+				d.Str[i] = "DECOY"
+			}
+			decoy.Messages = append(decoy.Messages, d)
+		}
+		var dbuf bytes.Buffer
+		decoy.WriteTo(&dbuf)
+		os.WriteFile(filepath.Join(dir, c.Locale+".po"), dbuf.Bytes(), 0o644)
+		ask = c.Locale + "_" + region
+	case 2:
+		os.WriteFile(filepath.Join(dir, c.Locale+".po"), pobuf.Bytes(), 0o644)
+		ask = c.Locale + "_" + region
+	default:
+		os.WriteFile(filepath.Join(dir, c.Locale+".po"), pobuf.Bytes(), 0o644)
+	}
 	provider, err := pomsg.Dir(dir)
 	if err != nil {
 		return bad(true, "the filled-in catalogue does not load: %v\n%s", err, pobuf.String())
 	}
-	bundle := provider.Bundle(c.Locale)
+	bundle := provider.Bundle(ask)
 	if bundle == nil {
 		return bad(true, "no bundle for locale %s", c.Locale)
 	}
 	// 3. render with the catalogue
-	cb, cerr, pn := compileBundle(names, srcs, nil)
+	cb, cerr, pn := compileBundle(names, srcs, prog.Globals)
 	if cerr != nil || pn != nil {
 		return bad(true, "bundle does not compile: %v %v\n%s", cerr, pn, src)
 	}
@@ -444,6 +471,7 @@ func genC11(t *rapid.T) C11Case {
 		c.Groups = append(c.Groups, grp)
 		c.Carriers = append(c.Carriers, rapid.SampledFrom([]int{0, 0, 1, 2, 3}).Draw(t, "carrier"))
 	}
+	c.Region = rapid.SampledFrom([]int{0, 0, 1, 2}).Draw(t, "region")
 	return c
 }
 
